@@ -6,6 +6,7 @@ import (
 	"verif/seq/c14"
 	"verif/seq/c15"
 	"verif/seq/c16"
+	"verif/seq/c19"
 
 	_ "verif/harness/c01"
 	_ "verif/harness/c02"
@@ -22,5 +23,6 @@ import (
 func init() {
 	h.Register("C14", func(tier string) ([]*h.Scn, []*h.Plain) { return nil, c14.Plains(tier) })
 	h.Register("C15", func(tier string) ([]*h.Scn, []*h.Plain) { return nil, c15.Plains(tier) })
+	h.Register("C19", func(tier string) ([]*h.Scn, []*h.Plain) { return nil, c19.Plains(tier) })
 	h.Register("C16", func(tier string) ([]*h.Scn, []*h.Plain) { return nil, c16.Plains(tier) })
 }
